@@ -139,3 +139,12 @@ PROPS['C11'] = dict(
     prop_modules=['Vise.Props.C11'], lean_targets=['Vise.Props.C11'], suites=['db'],
     trusted=DB_TRUSTED, assumptions=["injectivity is proved for dot-free session ids, both empty or both non-empty; outside it the negation is proved and recorded as known finding"],
 )
+
+PG_TRUSTED = [
+    "the transactional driver is an abstract machine (Vise/PgTx.lean: Drv) that specifies harness/internal/pgfake: one committed table, an open transaction buffering its writes, a failed statement or row fetch poisons the transaction, Commit of a poisoned transaction rolls back, Rollback always ends it, numbered primitive calls fail where listed; a real PostgreSQL server and pgx's pool are not modelled",
+    "the wrapper is driven through its public API with the pgx pool interface (WithConnection) exactly as its own tests drive pgxmock; storage keys are C10/C11's",
+]
+PROPS['C13'] = dict(
+    prop_modules=['Vise.Props.C13'], lean_targets=['Vise.Props.C13'], suites=['pg'],
+    trusted=PG_TRUSTED, assumptions=["a handle that has been used with Start stays in explicit-transaction mode after Stop (Stop does not clear it; TestPostgresTxStartStop relies on that), so the single-operation clauses are stated for handles never put into that mode"],
+)
